@@ -391,3 +391,313 @@ Proof.
       pose proof (depth_obj_in v ((k, x) :: kvs) Hv). lia.
     + intros v Hv. apply (wf_obj_in v ((k, x) :: kvs) Hw Hv).
 Qed.
+
+(* ------------------------------------------------------------------ D. whole texts *)
+Section JvInd.
+Variable P : jv -> Prop.
+Hypothesis Hn : P JNull.
+Hypothesis Hb : forall b, P (JBool b).
+Hypothesis Hnum : forall t, P (JNum t).
+Hypothesis Hs : forall s, P (JStr s).
+Hypothesis Ha : forall l, Forall P l -> P (JArr l).
+Hypothesis Ho : forall kvs, Forall (fun kv : str * jv => P (snd kv)) kvs -> P (JObj kvs).
+Fixpoint jv_ind' (v : jv) : P v :=
+  match v with
+  | JNull => Hn
+  | JBool b => Hb b
+  | JNum t => Hnum t
+  | JStr s => Hs s
+  | JArr l => Ha l ((fix go (l : list jv) : Forall P l :=
+                       match l with [] => Forall_nil _ | x :: xs => Forall_cons _ (jv_ind' x) (go xs) end) l)
+  | JObj kvs => Ho kvs ((fix go (l : list (str * jv)) : Forall (fun kv => P (snd kv)) l :=
+                           match l with [] => Forall_nil _ | kv :: xs => Forall_cons _ (jv_ind' (snd kv)) (go xs) end) kvs)
+  end.
+End JvInd.
+
+Lemma depth_le_length v : forall ind, (depth v <= List.length (print ind v))%nat.
+Proof.
+  induction v as [| | | |l IH|kvs IH] using jv_ind'; intro ind; try (cbn; lia).
+  - destruct l as [|x xs]; [cbn; lia|]. rewrite print_arr. cbn [depth].
+    rewrite !app_length. cbn [List.length].
+    assert (H : (fold_right (fun x m => Nat.max (depth x) m) O (x :: xs)
+                 <= List.length (print (S ind) x) + List.length (print_items (S ind) xs))%nat).
+    { inversion IH as [|? ? Hx Hxs]; subst. cbn [fold_right]. specialize (Hx (S ind)).
+      assert (H2 : (fold_right (fun x m => Nat.max (depth x) m) O xs <= List.length (print_items (S ind) xs))%nat).
+      { clear Hx IH. induction Hxs as [|y ys Hy _ IHys]; [cbn; lia|]. cbn [fold_right print_items].
+        rewrite !app_length. specialize (Hy (S ind)). lia. }
+      lia. }
+    lia.
+  - destruct kvs as [|[k x] kvs]; [cbn; lia|]. rewrite print_obj. cbn [depth].
+    rewrite !app_length. cbn [List.length].
+    assert (H : (fold_right (fun kx m => Nat.max (depth (snd kx)) m) O ((k, x) :: kvs)
+                 <= List.length (print (S ind) x) + List.length (print_members (S ind) kvs))%nat).
+    { inversion IH as [|? ? Hx Hxs]; subst. cbn [fold_right snd]. cbn [snd] in Hx. specialize (Hx (S ind)).
+      assert (H2 : (fold_right (fun kx m => Nat.max (depth (snd kx)) m) O kvs <= List.length (print_members (S ind) kvs))%nat).
+      { clear Hx IH. induction Hxs as [|[k' y] ys Hy _ IHys]; [cbn; lia|]. cbn [fold_right print_members snd].
+        rewrite !app_length. cbn [snd] in Hy. specialize (Hy (S ind)). lia. }
+      lia. }
+    lia.
+Qed.
+
+(* json.loads reads back the value from the printed text followed by the final newline *)
+Theorem parse_json_print v : wf v -> parse_json (print 0 v ++ [10]) = Some v.
+Proof.
+  intro Hw. unfold parse_json. rewrite skip_ws_starts by (apply print_starts; exact Hw).
+  rewrite parse_print; [reflexivity| |exact Hw|right; reflexivity].
+  pose proof (depth_le_length v 0). rewrite app_length. lia.
+Qed.
+
+(* ------------------------------------------------------------------ E. no trailing whitespace: strip_lines changes nothing *)
+(* state while reading a text: the last character of the current line (None at the start of a line) *)
+Definition st_ok (st : option Z) : bool := match st with None => true | Some c => negb (py_space c) end.
+
+Fixpoint lscan (st : option Z) (s : str) : option (option Z) :=
+  match s with
+  | [] => Some st
+  | x :: s' => if x =? 10 then (if st_ok st then lscan None s' else None) else lscan (Some x) s'
+  end.
+
+Lemma lscan_app st a b : lscan st (a ++ b) = match lscan st a with Some st' => lscan st' b | None => None end.
+Proof.
+  revert st. induction a as [|x a IH]; intro st; [reflexivity|]. cbn [app lscan].
+  destruct (x =? 10); [destruct (st_ok st); [apply IH|reflexivity]|apply IH].
+Qed.
+
+Definition clean (st : option Z) (s : str) : Prop := exists st', lscan st s = Some st' /\ st_ok st' = true.
+
+Lemma rstrip_rev_ok cur : st_ok (match cur with [] => None | c :: _ => Some c end) = true -> rstrip_rev cur = cur.
+Proof. destruct cur as [|c t]; [reflexivity|]. cbn. intro H. apply negb_true_iff in H. rewrite H. reflexivity. Qed.
+
+Definition st_of (cur : str) : option Z := match cur with [] => None | c :: _ => Some c end.
+
+Lemma split_nonempty c s cur : split_char_aux c s cur <> [].
+Proof. revert cur. induction s as [|x s IH]; intro cur; cbn [split_char_aux]; [discriminate|]. destruct (x =? c); [discriminate|apply IH]. Qed.
+
+Lemma strip_clean s : forall cur, clean (st_of cur) s ->
+  join [10] (map rstrip (split_char_aux 10 s cur)) = rev cur ++ s.
+Proof.
+  induction s as [|x s IH]; intros cur [st' [Hl Hok]].
+  - cbn [lscan] in Hl. injection Hl as <-. cbn [split_char_aux map join]. unfold rstrip. rewrite rev_involutive.
+    rewrite rstrip_rev_ok by exact Hok. rewrite app_nil_r. reflexivity.
+  - cbn [lscan] in Hl. cbn [split_char_aux]. destruct (x =? 10) eqn:Ex.
+    + apply Z.eqb_eq in Ex. subst x. destruct (st_ok (st_of cur)) eqn:Hc; [|discriminate].
+      cbn [map]. pose proof (split_nonempty 10 s []) as Hne.
+      specialize (IH [] (ex_intro _ st' (conj Hl Hok))). cbn [rev app] in IH.
+      destruct (split_char_aux 10 s []) as [|p ps] eqn:Es; [congruence|].
+      cbn [map join] in *. destruct (map rstrip ps) as [|q qs] eqn:Em.
+      * unfold rstrip at 1. rewrite rev_involutive. rewrite rstrip_rev_ok by exact Hc. cbn [join] in IH. rewrite IH. reflexivity.
+      * unfold rstrip at 1. rewrite rev_involutive. rewrite rstrip_rev_ok by exact Hc. rewrite IH. reflexivity.
+    + rewrite (IH (x :: cur)); [|exists st'; split; assumption]. cbn [rev]. rewrite <- app_assoc. reflexivity.
+Qed.
+
+Theorem strip_lines_clean s : clean None s -> strip_lines s = s.
+Proof. intro H. unfold strip_lines, split_char. rewrite (strip_clean s []); [reflexivity|exact H]. Qed.
+
+Lemma lscan_no_nl a : forall st, ~ In 10 a -> a <> [] -> lscan st a = Some (Some (last a 0)).
+Proof.
+  induction a as [|x a IH]; intros st Hn Hne; [congruence|]. cbn [lscan].
+  assert (Hx : (x =? 10) = false) by (apply Z.eqb_neq; intro E; apply Hn; left; exact E). rewrite Hx.
+  destruct a as [|y a']; [reflexivity|]. rewrite IH; [reflexivity|intro H; apply Hn; right; exact H|discriminate].
+Qed.
+
+Ltac Zify.zify_post_hook ::= Z.div_mod_to_equations.
+
+Lemma esc_char_no_nl c : ~ In 10 (esc_char c).
+Proof.
+  unfold esc_char.
+  destruct (c =? 34); [cbn; intuition lia|]. destruct (c =? 92); [cbn; intuition lia|].
+  destruct (c =? 10) eqn:E10; [cbn; intuition lia|]. destruct (c =? 13); [cbn; intuition lia|].
+  destruct (c =? 9); [cbn; intuition lia|]. destruct (c =? 8); [cbn; intuition lia|]. destruct (c =? 12); [cbn; intuition lia|].
+  destruct ((0 <=? c) && (c <? 32)) eqn:Ec.
+  - apply andb_true_iff in Ec as [H0 H32]. apply Z.leb_le in H0. apply Z.ltb_lt in H32.
+    unfold hexdigit. cbn [In]. destruct (c / 16 <? 10) eqn:E1; destruct (c mod 16 <? 10) eqn:E2; intuition lia.
+  - apply Z.eqb_neq in E10. cbn. intuition lia.
+Qed.
+
+Lemma quote_no_nl k : ~ In 10 (quote k).
+Proof.
+  unfold quote. cbn [In]. intros [H|H]; [lia|]. apply in_app_or in H as [H|H].
+  - apply in_flat_map in H as [c [_ Hc]]. exact (esc_char_no_nl c Hc).
+  - cbn in H. intuition lia.
+Qed.
+
+Lemma quote_last k : last (quote k) 0 = 34.
+Proof. unfold quote. change (34 :: flat_map esc_char k ++ [34]) with ((34 :: flat_map esc_char k) ++ [34]). apply last_last. Qed.
+
+Lemma lscan_quote st k : lscan st (quote k) = Some (Some 34).
+Proof. rewrite lscan_no_nl; [rewrite quote_last; reflexivity|apply quote_no_nl|unfold quote; discriminate]. Qed.
+
+Lemma lscan_spaces n : forall st s,
+  lscan st (repeat 32 n ++ s) = lscan (match n with O => st | S _ => Some 32 end) s.
+Proof.
+  induction n as [|n IH]; intros st s; [reflexivity|]. cbn [repeat app lscan]. change (32 =? 10) with false. cbv iota.
+  rewrite IH. destruct n; reflexivity.
+Qed.
+
+Lemma lscan_nl k st s : st_ok st = true -> exists st2, lscan st (nl k ++ s) = lscan st2 s.
+Proof.
+  intro H. unfold nl. cbn [app lscan]. change (10 =? 10) with true. cbv iota. rewrite H. rewrite lscan_spaces.
+  eexists. reflexivity.
+Qed.
+
+(* the characters of a number token *)
+Definition numchar (c : Z) : bool := is_digit c || (c =? 45) || (c =? 46) || (c =? 101) || (c =? 69) || (c =? 43).
+
+Lemma span_digits_fst s : Forall (fun c => numchar c = true) (fst (span_digits s)).
+Proof.
+  induction s as [|c t IH]; [constructor|]. cbn [span_digits]. destruct (is_digit c) eqn:E; [|constructor].
+  destruct (span_digits t) as [a b]. cbn [fst] in *. constructor; [unfold numchar; rewrite E; reflexivity|exact IH].
+Qed.
+
+Lemma scan_num_chars s tok r : scan_num s = Some (tok, r) -> Forall (fun c => numchar c = true) tok /\ tok <> [].
+Proof.
+  unfold scan_num. destruct (scan_int s) as [[i r1]|] eqn:Ei; [|discriminate].
+  destruct (scan_frac r1) as [f r2] eqn:Ef. destruct (scan_exp r2) as [x r3] eqn:Ex. intro H. injection H as <- <-.
+  assert (Hi : Forall (fun c => numchar c = true) i /\ i <> []).
+  { unfold scan_int in Ei. destruct s as [|c t]; [discriminate|].
+    assert (Hsg : forall sg : str, (sg = [45] \/ sg = []) -> forall s1,
+              match s1 with
+              | c0 :: t0 => if c0 =? 48 then Some (sg ++ [48], t0)
+                            else let '(ds, r) := span_digits s1 in match ds with [] => None | _ => Some (sg ++ ds, r) end
+              | [] => None
+              end = Some (i, r1) -> Forall (fun c => numchar c = true) i /\ i <> []).
+    { intros sg Hs s1 H. destruct s1 as [|c0 t0]; [discriminate|].
+      assert (Hsgc : Forall (fun c => numchar c = true) sg) by (destruct Hs as [->| ->]; repeat constructor).
+      destruct (c0 =? 48).
+      - injection H as <- <-. split; [apply Forall_app; split; [exact Hsgc|repeat constructor]|destruct sg; discriminate].
+      - pose proof (span_digits_fst (c0 :: t0)) as Hd. destruct (span_digits (c0 :: t0)) as [ds r]. cbn [fst] in Hd.
+        destruct ds as [|d ds']; [discriminate|]. injection H as <- <-.
+        split; [apply Forall_app; split; assumption|destruct sg; discriminate]. }
+    destruct (c =? 45); [apply (Hsg [45] (or_introl eq_refl) t Ei)|apply (Hsg [] (or_intror eq_refl) (c :: t) Ei)]. }
+  assert (Hf : Forall (fun c => numchar c = true) f).
+  { unfold scan_frac in Ef. destruct r1 as [|c t]; [injection Ef as <- <-; constructor|].
+    destruct (c =? 46) eqn:E46; [|injection Ef as <- <-; constructor].
+    pose proof (span_digits_fst t) as Hd. destruct (span_digits t) as [ds r]. cbn [fst] in Hd.
+    destruct ds; injection Ef as <- <-; [constructor|]. constructor; [reflexivity|exact Hd]. }
+  assert (Hx : Forall (fun c => numchar c = true) x).
+  { unfold scan_exp in Ex. destruct r2 as [|e t]; [injection Ex as <- <-; constructor|].
+    destruct ((e =? 101) || (e =? 69)) eqn:Ee; [|injection Ex as <- <-; constructor].
+    assert (He : numchar e = true).
+    { unfold numchar. apply orb_true_iff in Ee as [E|E]; rewrite E; rewrite ?orb_true_r; reflexivity. }
+    destruct t as [|c t'].
+    - cbn [span_digits] in Ex. injection Ex as <- <-. constructor.
+    - destruct ((c =? 43) || (c =? 45)) eqn:Es.
+      + pose proof (span_digits_fst t') as Hd. destruct (span_digits t') as [ds r]. cbn [fst] in Hd.
+        destruct ds; injection Ex as <- <-; [constructor|]. constructor; [exact He|]. cbn [app]. constructor; [|exact Hd].
+        unfold numchar. apply orb_true_iff in Es as [E|E]; rewrite E; rewrite ?orb_true_r; reflexivity.
+      + pose proof (span_digits_fst (c :: t')) as Hd. destruct (span_digits (c :: t')) as [ds r]. cbn [fst] in Hd.
+        destruct ds; injection Ex as <- <-; [constructor|]. constructor; [exact He|exact Hd]. }
+  destruct Hi as [Hi Hne]. split; [repeat (apply Forall_app; split); assumption|destruct i; [congruence|discriminate]].
+Qed.
+
+Lemma numchar_plain c : numchar c = true -> c <> 10 /\ py_space c = false.
+Proof.
+  unfold numchar, is_digit, py_space. intro H. split; [intro E; subst c; discriminate|].
+  repeat (apply orb_true_iff in H as [H|H]); try (apply Z.eqb_eq in H; subst c; reflexivity).
+  apply andb_true_iff in H as [H1 H2]. apply Z.leb_le in H1, H2.
+  repeat (apply orb_false_iff; split); try (apply andb_false_iff; (left; apply Z.leb_gt; lia) || (right; apply Z.leb_gt; lia));
+    apply Z.eqb_neq; lia.
+Qed.
+
+Lemma num_ok_text tok : num_ok tok -> ~ In 10 tok /\ tok <> [] /\ py_space (last tok 0) = false.
+Proof.
+  intros [H|[->|[->| ->]]]; try (split; [cbn; intuition lia|split; [discriminate|reflexivity]]).
+  destruct (scan_num_chars _ _ _ H) as [Hc Hne]. rewrite Forall_forall in Hc. split; [|split; [exact Hne|]].
+  - intro Hin. destruct (numchar_plain 10 (Hc 10 Hin)) as [E _]. congruence.
+  - destruct tok as [|c t]; [congruence|]. apply numchar_plain, Hc.
+    destruct (exists_last (l := c :: t)) as (l' & a & E); [discriminate|]. rewrite E. rewrite last_last.
+    apply in_or_app. right. left. reflexivity.
+Qed.
+
+Definition ends_clean (v : jv) : Prop :=
+  forall ind st, exists c, lscan st (print ind v) = Some (Some c) /\ py_space c = false.
+
+Lemma lscan_items ind xs : Forall ends_clean xs ->
+  forall c, py_space c = false -> exists c', lscan (Some c) (print_items ind xs) = Some (Some c') /\ py_space c' = false.
+Proof.
+  intro H. induction H as [|y ys Hy _ IH]; intros c Hc; [exists c; split; [reflexivity|exact Hc]|].
+  cbn [print_items app lscan]. change (44 =? 10) with false. cbv iota.
+  destruct (lscan_nl ind (Some 44) (print ind y ++ print_items ind ys) eq_refl) as [st2 E]. rewrite E. clear E.
+  rewrite lscan_app. destruct (Hy ind st2) as [c1 [E1 H1]]. rewrite E1. apply IH. exact H1.
+Qed.
+
+Lemma lscan_members ind kvs : Forall (fun kv : str * jv => ends_clean (snd kv)) kvs ->
+  forall c, py_space c = false -> exists c', lscan (Some c) (print_members ind kvs) = Some (Some c') /\ py_space c' = false.
+Proof.
+  intro H. induction H as [|[k y] ys Hy _ IH]; intros c Hc; [exists c; split; [reflexivity|exact Hc]|].
+  cbn [print_members app lscan]. change (44 =? 10) with false. cbv iota.
+  destruct (lscan_nl ind (Some 44) (quote k ++ 58 :: 32 :: print ind y ++ print_members ind ys) eq_refl) as [st2 E].
+  rewrite E. clear E. rewrite lscan_app, lscan_quote. cbn [app lscan]. change (58 =? 10) with false. change (32 =? 10) with false.
+  cbv iota. rewrite lscan_app. cbn [snd] in Hy. destruct (Hy ind (Some 32)) as [c1 [E1 H1]]. rewrite E1. apply IH. exact H1.
+Qed.
+
+Theorem print_ends_clean v : wf v -> ends_clean v.
+Proof.
+  induction v as [| | | |l IH|kvs IH] using jv_ind'; intros Hw ind st.
+  - exists 108. split; reflexivity.
+  - destruct b; [exists 101|exists 101]; split; reflexivity.
+  - cbn [print]. cbn [wf] in Hw. destruct (num_ok_text t Hw) as (H1 & H2 & H3).
+    exists (last t 0). split; [apply lscan_no_nl; assumption|exact H3].
+  - exists 34. split; [apply lscan_quote|reflexivity].
+  - destruct l as [|x xs]; [exists 93; split; reflexivity|]. rewrite print_arr.
+    assert (Hall : Forall ends_clean (x :: xs)).
+    { rewrite Forall_forall in *. intros y Hy. apply IH; [exact Hy|apply (wf_arr_in y _ Hw Hy)]. }
+    inversion Hall as [|? ? Hx Hxs]; subst.
+    cbn [app lscan]. change (91 =? 10) with false. cbv iota.
+    destruct (lscan_nl (S ind) (Some 91) (print (S ind) x ++ print_items (S ind) xs ++ nl ind ++ [93]) eq_refl) as [st2 E].
+    rewrite E. clear E. rewrite lscan_app. destruct (Hx (S ind) st2) as [c1 [E1 H1]]. rewrite E1.
+    rewrite lscan_app. destruct (lscan_items (S ind) xs Hxs c1 H1) as [c2 [E2 H2]]. rewrite E2.
+    destruct (lscan_nl ind (Some c2) [93]) as [st3 E3]; [cbn; rewrite H2; reflexivity|]. rewrite E3.
+    exists 93. split; reflexivity.
+  - destruct kvs as [|[k x] kvs]; [exists 125; split; reflexivity|]. rewrite print_obj.
+    assert (Hall : Forall (fun kv : str * jv => ends_clean (snd kv)) ((k, x) :: kvs)).
+    { rewrite Forall_forall in *. intros kv Hkv. apply IH; [exact Hkv|].
+      apply (wf_obj_in (snd kv) _ Hw). apply in_map. exact Hkv. }
+    inversion Hall as [|? ? Hx Hxs]; subst. cbn [snd] in Hx.
+    cbn [app lscan]. change (123 =? 10) with false. cbv iota.
+    destruct (lscan_nl (S ind) (Some 123) (quote k ++ 58 :: 32 :: print (S ind) x ++ print_members (S ind) kvs ++ nl ind ++ [125]) eq_refl) as [st2 E].
+    rewrite E. clear E. rewrite lscan_app, lscan_quote. cbn [app lscan]. change (58 =? 10) with false. change (32 =? 10) with false.
+    cbv iota. rewrite lscan_app. destruct (Hx (S ind) (Some 32)) as [c1 [E1 H1]]. rewrite E1.
+    rewrite lscan_app. destruct (lscan_members (S ind) kvs Hxs c1 H1) as [c2 [E2 H2]]. rewrite E2.
+    destruct (lscan_nl ind (Some c2) [125]) as [st3 E3]; [cbn; rewrite H2; reflexivity|]. rewrite E3.
+    exists 125. split; reflexivity.
+Qed.
+
+(* the text to_json returns: strip_lines changes nothing in what json.dumps wrote ... *)
+Theorem to_json_text_print v : wf v -> to_json_text v = print 0%nat v ++ [10].
+Proof.
+  intro Hw. unfold to_json_text. rewrite strip_lines_clean; [reflexivity|].
+  destruct (print_ends_clean v Hw 0%nat None) as [c [E H]]. exists (Some c). split; [exact E|]. cbn. rewrite H. reflexivity.
+Qed.
+
+(* ... and json.loads gives back the value written: the text is valid JSON for exactly that value *)
+Theorem parse_to_json_text v : wf v -> parse_json (to_json_text v) = Some v.
+Proof. intro Hw. rewrite to_json_text_print by exact Hw. apply parse_json_print. exact Hw. Qed.
+
+(* no line of the text ends in whitespace (Python's str.rstrip sense), and it ends with one newline *)
+Theorem to_json_text_no_trailing_ws v : wf v ->
+  exists body, to_json_text v = body ++ [10] /\ clean None body.
+Proof.
+  intro Hw. exists (print 0%nat v). split; [apply to_json_text_print; exact Hw|].
+  destruct (print_ends_clean v Hw 0%nat None) as [c [E H]]. exists (Some c). split; [exact E|]. cbn. rewrite H. reflexivity.
+Qed.
+
+(* the decidable form of well-formedness (evaluated by the harness on every value tdda writes) *)
+Lemma num_okb_ok tok : num_okb tok = true -> num_ok tok.
+Proof.
+  unfold num_okb, num_ok. intro H. repeat (apply orb_true_iff in H as [H|H]).
+  - left. destruct (scan_num tok) as [[t [|c r]]|]; try discriminate. apply str_eqb_eq in H. subst t. reflexivity.
+  - right. left. apply str_eqb_eq. exact H.
+  - right. right. left. apply str_eqb_eq. exact H.
+  - right. right. right. apply str_eqb_eq. exact H.
+Qed.
+
+Theorem wfb_wf v : wfb v = true -> wf v.
+Proof.
+  induction v as [| | | |l IH|kvs IH] using jv_ind'; cbn [wfb wf]; intro H; try exact I.
+  - apply num_okb_ok. exact H.
+  - induction IH as [|x xs Hx _ IHxs]; [exact I|]. cbn [forallb] in H. apply andb_true_iff in H as [H1 H2].
+    cbn [fold_right]. split; [apply Hx; exact H1|apply IHxs; exact H2].
+  - induction IH as [|kv xs Hx _ IHxs]; [exact I|]. cbn [forallb] in H. apply andb_true_iff in H as [H1 H2].
+    cbn [fold_right]. split; [apply Hx; exact H1|apply IHxs; exact H2].
+Qed.
